@@ -98,7 +98,8 @@ fn hostile_history(rng: &mut Rng, n: u32, len: usize, quant: bool, reorder: bool
                 ops.push(Op::Restrict(a, care, care));
                 ops.push(Op::Restrict(b, care, 0));
                 ops.push(Op::Not(a));
-                ops.push(Op::AddVars(1));
+                // both ways of adding variables (separate code paths in both managers)
+                ops.push(if rng.bool() { Op::AddVars(1) } else { Op::AddNamedVars(1) });
                 let nn = n_now(&ops, n);
                 let top = 1u32 << (nn - 1);
                 ops.push(Op::Restrict(a, care | top, care));
